@@ -71,8 +71,27 @@ func RewriteClause(decls map[ast.PredicateSym]*ast.Decl, clause ast.Clause) ast.
 			}
 			boundVars = boundVars.Extend(defVars)
 		case ast.Eq:
+			// An equality gives values to the variables of one side only when
+			// every variable of the other side already has one.
+			leftVars := make(map[ast.Variable]bool)
+			rightVars := make(map[ast.Variable]bool)
+			ast.AddVars(p.Left, leftVars)
+			ast.AddVars(p.Right, rightVars)
+			allBound := func(vars map[ast.Variable]bool) bool {
+				for v := range vars {
+					if boundVars.Find(v) == -1 {
+						return false
+					}
+				}
+				return true
+			}
 			m := boundVars.AsMap()
-			ast.AddVars(p, m)
+			if allBound(rightVars) {
+				ast.AddVars(p.Left, m)
+			}
+			if allBound(leftVars) {
+				ast.AddVars(p.Right, m)
+			}
 			boundVars = NewVarList(m)
 
 		case ast.NegAtom:
